@@ -444,3 +444,187 @@ func genReal(t *rapid.T) *RScenario {
 	}
 	return sc
 }
+
+// ---------------------------------------------------------------------------
+// parts "types" and "content" (multi.go)
+// ---------------------------------------------------------------------------
+
+// genXTypes draws the clientType argument: none, one, several, repeated names
+// (adjacent or not), names nobody registered, in any order.
+func genXTypes(t *rapid.T, part string) []string {
+	if part == "content" && rapid.IntRange(0, 3).Draw(t, "plain-types") != 0 {
+		return []string{"a"}
+	}
+	n := rapid.SampledFrom([]int{0, 1, 1, 2, 2, 2, 3, 3, 4, 5}).Draw(t, "n-types")
+	pool := []string{"a", "a", "a", "b", "b", "c", "u", ""}
+	if rapid.IntRange(0, 2).Draw(t, "registered-only") != 0 {
+		pool = []string{"a", "a", "b", "b", "c"}
+	}
+	out := make([]string, 0, n)
+	for i := 0; i < n; i++ {
+		out = append(out, rapid.SampledFrom(pool).Draw(t, "type"))
+	}
+	// one list in four (of two entries or more) is made to repeat a name for sure
+	if n >= 2 && rapid.IntRange(0, 3).Draw(t, "force-repeat") == 0 {
+		i := rapid.IntRange(0, n-1).Draw(t, "repeat-src")
+		j := rapid.IntRange(0, n-2).Draw(t, "repeat-dst")
+		if j >= i {
+			j++
+		}
+		out[j] = out[i]
+	}
+	return out
+}
+
+func genXOutcome(t *rapid.T, part string) XOutcome {
+	conns := []string{"ok", "ok", "ok", "err", "err", "err", "park"}
+	if part == "content" {
+		conns = []string{"ok", "ok", "ok", "ok", "ok", "ok", "ok", "ok", "err", "park"}
+	}
+	o := XOutcome{Conn: rapid.SampledFrom(conns).Draw(t, "conn")}
+	if o.Conn != "park" {
+		o.ConnDelay = rapid.SampledFrom([]int{0, 0, 0, 1, 2, 4}).Draw(t, "conn-delay")
+	}
+	subs := []string{"ok", "ok", "ok", "ok", "err"}
+	if part == "content" {
+		subs = []string{"ok", "ok", "ok", "ok", "ok", "ok", "ok", "ok", "ok", "err"}
+	}
+	o.Sub = rapid.SampledFrom(subs).Draw(t, "sub")
+	return o
+}
+
+func genXNote(t *rapid.T) XNote {
+	n := XNote{Kind: rapid.SampledFrom([]string{"update", "update", "update", "update", "update", "update", "update", "delete", "delete", "sync"}).Draw(t, "kind")}
+	if n.Kind == "sync" {
+		return n
+	}
+	// mostly the four leaves (so that paths repeat), sometimes a path that is
+	// the branch of one of them
+	paths := []int{0, 0, 0, 1, 1, 2, 2, 3, 4, 5, 6}
+	if n.Kind == "delete" {
+		paths = []int{0, 0, 1, 2, 3, 4, 4, 5, 6}
+	}
+	n.Path = rapid.SampledFrom(paths).Draw(t, "path")
+	// a handful of timestamps, drawn independently: they repeat, go backwards
+	// and now and then jump far in either direction
+	n.TS = rapid.SampledFrom([]int{0, 1, 2, 3, 4, 5, 6, 7, 3, 4, 1000, -1000}).Draw(t, "ts")
+	return n
+}
+
+func genXAttempt(t *rapid.T, part string) XAttempt {
+	a := XAttempt{}
+	a.Out = []XOutcome{genXOutcome(t, part), genXOutcome(t, part), genXOutcome(t, part)}
+	maxMsgs, maxNotes := 2, 2
+	if part == "content" {
+		maxMsgs, maxNotes = 5, 3
+	}
+	a.Msgs = rapid.SliceOfN(rapid.Custom(func(t *rapid.T) XMsg {
+		return XMsg{
+			Delay: rapid.SampledFrom([]int{0, 0, 1, 1, 2, 3}).Draw(t, "delay"),
+			Notes: rapid.SliceOfN(rapid.Custom(genXNote), 1, maxNotes).Draw(t, "notes"),
+		}
+	}), 0, maxMsgs).Draw(t, "msgs")
+	if len(a.Msgs) == 0 {
+		a.Msgs = nil
+	}
+	a.End = rapid.SampledFrom([]string{"err", "err", "err", "eof", "eof", "stop", "block"}).Draw(t, "end")
+	if a.End != "block" {
+		a.EndDelay = rapid.SampledFrom([]int{0, 0, 1, 2, 4}).Draw(t, "end-delay")
+	}
+	return a
+}
+
+// genX draws one case of part "types" or "content".
+func genX(t *rapid.T, part string) *XScenario {
+	sc := &XScenario{}
+	clients := []string{"base", "base", "cache"}
+	if part == "content" {
+		clients = []string{"cache", "cache", "cache", "base"}
+	}
+	sc.Client = rapid.SampledFrom(clients).Draw(t, "client")
+	sc.Plain = rapid.IntRange(0, 5).Draw(t, "plain") == 5
+	sc.NilCallbacks = rapid.IntRange(0, 11).Draw(t, "nil-callbacks") == 11 && !sc.Plain
+	sc.BaseDelay = rapid.SampledFrom([]int{2, 2, 3, 4, 6, 10, 20, 500}).Draw(t, "base-delay")
+	sc.MaxDelay = sc.BaseDelay * rapid.SampledFrom([]int{1, 2, 2, 3, 5, 10}).Draw(t, "max-factor")
+	sc.Timeout = rapid.SampledFrom([]int{0, 0, 5, 50}).Draw(t, "timeout")
+	sc.Stop = rapid.SampledFrom([]string{"close", "close", "close", "close", "cancel"}).Draw(t, "stop")
+	sc.Types = genXTypes(t, part)
+	minAttempts := rapid.SampledFrom([]int{1, 1, 2, 3, 4}).Draw(t, "min-attempts")
+	sc.Attempts = rapid.SliceOfN(rapid.Custom(func(t *rapid.T) XAttempt { return genXAttempt(t, part) }), minAttempts, 6).Draw(t, "attempts")
+	if sc.Plain {
+		// the set-up of a plain client's one attempt is decided at once
+		sc.Attempts = sc.Attempts[:1]
+		for i := range sc.Attempts[0].Out {
+			o := &sc.Attempts[0].Out[i]
+			if o.Conn == "park" {
+				o.Conn = "err"
+			}
+			o.ConnDelay = 0
+		}
+		p := sc.xpredict(1)
+		sc.StopAt = rapid.IntRange(0, int(p[0].end/Unit)+3).Draw(t, "stop-at")
+		sc.Target = "uniform"
+		return sc
+	}
+	mode := rapid.SampledFrom([]string{"phase", "phase", "phase", "phase", "uniform", "uniform", "late", "late", "before-subscribe"}).Draw(t, "aim")
+	if part == "content" {
+		// mostly let the whole script run: the content is the point
+		mode = rapid.SampledFrom([]string{"late", "late", "late", "late", "phase", "uniform"}).Draw(t, "aim-content")
+	}
+	if mode == "before-subscribe" {
+		sc.SubAt = rapid.IntRange(1, 3).Draw(t, "sub-at")
+		sc.StopAt = rapid.IntRange(0, sc.SubAt-1).Draw(t, "stop-at")
+		sc.Target = mode
+		return sc
+	}
+	if rapid.IntRange(0, 5).Draw(t, "late-subscribe") == 5 {
+		sc.SubAt = rapid.IntRange(1, 3).Draw(t, "sub-at")
+	}
+	p := sc.xpredict(len(sc.Attempts) + 1)
+	last := p[len(p)-1]
+	total := int(last.end/Unit) + 1
+	switch mode {
+	case "late":
+		sc.StopAt = total + rapid.IntRange(0, 2*sc.MaxDelay+2).Draw(t, "after")
+		sc.Target = mode
+	case "uniform":
+		sc.StopAt = rapid.IntRange(sc.SubAt, total+sc.MaxDelay).Draw(t, "stop-at")
+		sc.Target = mode
+	default:
+		ph := rapid.SampledFrom([]string{"backoff", "backoff", "backoff", "first", "connect", "connect", "stream"}).Draw(t, "aim-phase")
+		hiAttempt := len(p) - 1
+		if ph == "backoff" && last.blocks && hiAttempt > 0 {
+			hiAttempt--
+		}
+		s := p[rapid.IntRange(0, hiAttempt).Draw(t, "aim-attempt")]
+		frac := rapid.IntRange(0, 7).Draw(t, "aim-frac")
+		var lo, hi time.Duration
+		switch ph {
+		case "backoff":
+			lo, hi = s.end, s.next
+		case "first":
+			lo, hi = s.conn, s.first
+			if s.blocks && s.first >= s.end {
+				hi = s.end + time.Duration(sc.MaxDelay)*Unit
+			}
+		case "connect":
+			lo, hi = s.start, s.conn
+		case "stream":
+			lo, hi = s.first, s.end
+			if s.blocks {
+				hi = s.end + time.Duration(sc.MaxDelay)*Unit
+			}
+		}
+		sc.Target = ph
+		ulo, uhi, ok := unitsWithin(lo, hi)
+		if !ok || !(s.connected || ph == "backoff" || ph == "connect") {
+			ulo, uhi, _ = unitsWithin(s.start, s.start+Unit)
+			sc.Target = ph + "-missing"
+		}
+		sc.StopAt = ulo + (uhi-ulo)*frac/7
+		if sc.StopAt < sc.SubAt {
+			sc.StopAt = sc.SubAt
+		}
+	}
+	return sc
+}
